@@ -285,6 +285,10 @@ func (g *Gen) keys() []string {
 	n := g.r.intn(4)
 	out := []string{}
 	for i := 0; i < n; i++ {
+		if g.r.chance(12) {
+			out = append(out, "") // an empty key is a key
+			continue
+		}
 		out = append(out, g.word())
 	}
 	return out
